@@ -56,6 +56,29 @@ pub fn bins(cfg: &mut Cfg, rep: &mut Report) {
             !rep.stop
         });
     }
+    // larger collections (8..=24 values): random, sorted, sorted with adjacent duplicates, all equal
+    let mut rng = Lcg(cfg.seed + 91);
+    for k in 0..(if cfg.thorough { 2000 } else { 300 }) {
+        let n = 8 + rng.below(17);
+        let mut raw: Vec<i32> = (0..n).map(|_| 2 * rng.below([3usize, n, 3 * n][k % 3]) as i32).collect();
+        match k % 4 { 0 => raw.sort(), 1 => { raw.sort(); raw.reverse(); } 2 => { let m = raw[0]; for x in raw.iter_mut() { *x = m; } } _ => {} }
+        let case = format!("large;edges={:?}", raw);
+        if !rep.want(cfg, &case) { continue; }
+        let mut want = raw.clone(); want.sort(); want.dedup();
+        for (nm, e) in [("vec", Edges::from(raw.clone())), ("array", Edges::from(Array1::from(raw.clone())))] {
+            let got: Vec<i32> = e.iter().copied().collect();
+            if got != want { rep.fail_p(cfg, &case, "C13,C20", "Edges do not hold exactly the distinct input values in increasing order", json!({"ctor": nm, "got": got})); }
+            let b = Bins::new(e.clone());
+            if b.len() != want.len().saturating_sub(1) { rep.fail(cfg, &case, "Bins::len is not max(#edges-1,0)", json!({"ctor": nm})); }
+            for v in (want[0] - 1)..=(want[want.len() - 1] + 1) {
+                let sp = spec_bin(&want, v);
+                if e.indices_of(&v) != sp.map(|i| (i, i + 1)) || b.index_of(&v) != sp || b.range_of(&v) != sp.map(|i| want[i]..want[i + 1]) {
+                    rep.fail(cfg, &case, "bin lookup is not left-closed/right-open or accessors disagree", json!({"ctor": nm, "probe": v}));
+                }
+            }
+        }
+        rep.eval(&case, true);
+    }
     // Grid: 2 axes
     let axes: Vec<Vec<i32>> = vec![vec![], vec![0], vec![0, 2], vec![0, 2, 4], vec![4, 0, 2, 2]];
     for a0 in &axes { for a1 in &axes {
